@@ -46,3 +46,26 @@ package node
 //@ guard store PodRequest.ipv6Ref in assignIPFromLocalPool: value == nil || target.IPv6 != "" || (value.IP.Status == "Valid" && value.IP.PodID == "" && value.NetworkInterface.Status == "InUse" && (target.RequireERDMA ==> value.NetworkInterface.NetworkInterfaceTrafficMode == "HighPerformance") && (!target.RequireERDMA && enableEDRMA ==> value.NetworkInterface.NetworkInterfaceTrafficMode != "HighPerformance"))
 //@ # dual stack: a freshly chosen IPv6 address comes from the interface that carries the pod's IPv4 address
 //@ guard store PodRequest.ipv6Ref in assignIPFromLocalPool: value == nil || target.IPv6 != "" || target.ipv4Ref == nil || value.NetworkInterface.ID == target.ipv4Ref.NetworkInterface.ID
+
+//@ for C08
+
+//@ # ---- createENI: an interface that was created but could not be made usable is deleted, or stays recorded as Deleting ----
+//@ ghost c08created bool = false
+//@ ghost c08id string
+//@ ghost c08delcalled bool = false
+//@ ghost c08delok bool = false
+//@ ghost c08delid string
+
+//@ func ReconcileNode.createENI
+//@   requires n != nil && node != nil && opt != nil && n.aliyun != nil && n.vswpool != nil && n.tracer != nil
+//@   at call CreateNetworkInterfaceV2: ghost c08created = (result1 == nil)
+//@   at call CreateNetworkInterfaceV2: ghost c08id = result0.NetworkInterfaceID
+//@   at call DeleteNetworkInterfaceV2: ghost c08delcalled = true
+//@   at call DeleteNetworkInterfaceV2: ghost c08delok = (result == nil)
+//@   at call DeleteNetworkInterfaceV2: ghost c08delid = arg1
+//@   # every failure after the cloud created the interface rolls it back ...
+//@   ensures result != nil && c08created ==> c08delcalled && c08delid == c08id
+//@   # ... and when the rollback itself fails the interface stays in the record, marked for deletion
+//@   ensures result != nil && c08created && !c08delok ==> c08id in node.Status.NetworkInterfaces && node.Status.NetworkInterfaces[c08id].Status == "Deleting"
+//@   # success: the interface was created and is not rolled back
+//@   ensures result == nil ==> c08created && !c08delcalled
